@@ -76,6 +76,17 @@ SOLVER_TOL = 1e-11
 CG_RATIO = 1e-12
 HORIZON_S = 60.0
 
+# time-step axis of the helper products for the rate-dependent materials. label -> (value, how it is handed to the helper):
+# "default" = the helper is called WITHOUT a time step (its default dt=0.0); "0.25", "10" = trailing positional argument;
+# "0.25kw" = keyword argument dt=0.25. The residual helpers have no time-step parameter (the caller's energy carries it).
+_DT_VALUES = {"default": 0.0, "0.25": 0.25, "10": 10.0, "0.25kw": 0.25}
+_DT_AXIS = {
+    # compute_state_new of HyperViscoelastic is well defined at dt=0 (identity in the previous state): default call included
+    "hypervisco": ["default", "0.25", "10", "0.25kw"],
+    # the power-law kinetic potential divides by dt: dt=0 is not an admissible time step of this material
+    "j2-rate-small": ["0.25", "10", "0.25kw"],
+}
+
 
 # ---------------------------------------------------------------------------------------------------
 def bounds(tier):
@@ -105,6 +116,10 @@ def groups(tier, seed):
               ("j2-small", 2, "RU"), ("j2-small", 1, "RU"), ("neohookean", 2, "RU"), ("neohookean", 1, "RU")]
     for mat, order, parts in hg:
         gs.append({"name": "helpers-%s-p%d-%s" % (mat, order, parts), "kind": "helpers", "mat": mat, "order": order, "parts": parts})
+    # rate-dependent materials: the time step is an explicit axis (one group per (material, order): workers exit after a group)
+    for mat, order in (("j2-rate-small", 2), ("hypervisco", 2), ("j2-rate-small", 1), ("hypervisco", 1)):
+        gs.append({"name": "helpers-%s-p%d-RU-dt" % (mat, order), "kind": "helpers", "mat": mat, "order": order, "parts": "RU",
+                   "dts": _DT_AXIS[mat]})
     for n in sorted(_ift_dims(tier), reverse=True):
         ns = _ift_shards(tier, n)
         for s in range(ns):
@@ -664,7 +679,21 @@ def _material(name):
         E = 9.0 * kappa * mu / (3.0 * kappa + mu)
         nu = (3.0 * kappa - 2.0 * mu) / 2.0 / (3.0 * kappa + mu)
         return Neohookean.create_material_model_functions({"elastic modulus": E, "poisson ratio": nu, "version": "coupled"})
+    if name == "hypervisco":
+        # one Prony branch, relaxation time 0.8: dt/tau = 0.3125 and 12.5 on the time-step axis
+        from optimism.material import HyperViscoelastic
+        return HyperViscoelastic.create_material_model_functions({
+            "equilibrium bulk modulus": 50.0, "equilibrium shear modulus": 5.0,
+            "non equilibrium shear modulus": 7.0, "relaxation time": 0.8})
     from optimism.material import J2Plastic
+    if name == "j2-rate-small":
+        # power-law rate sensitivity: overstress S (epsdot/epsdot0)^(1/m); for an eqps increment of 0.1 it is ~20 at
+        # dt=0.25 and ~3 at dt=10 (yield strength 30), so the time step is visible in every yielding Jacobian
+        return J2Plastic.create_material_model_functions({
+            "elastic modulus": 100.0, "poisson ratio": 0.321, "yield strength": 30.0,
+            "kinematics": "small deformations", "hardening model": "linear", "hardening modulus": 1.0,
+            "rate sensitivity": "power law", "rate sensitivity stress": 10.0, "rate sensitivity exponent": 2.0,
+            "reference plastic strain rate": 0.1})
     return J2Plastic.create_material_model_functions({
         "elastic modulus": 100.0, "poisson ratio": 0.321, "yield strength": 30.0,
         "kinematics": "small deformations" if name == "j2-small" else "large deformations",
@@ -705,14 +734,16 @@ def _independent_fe(mesh, quad, shapeOnRef, mat, isUnknown):
     def field(Uu, Ubc):
         return jnp.zeros(2 * nn).at[flat_unknown].set(Uu).at[flat_bc].set(Ubc).reshape(nn, 2)
 
-    def energy(Uu, Ubc, ivs, X):
+    # dt: the time step handed to the material's point functions (the same for every quadrature point). The groups
+    # without a time-step axis call these without dt (the constant 0.0, as before).
+    def energy(Uu, Ubc, ivs, X, dt=0.0):
         H3, det = disp_grads(field(Uu, Ubc), X)
-        W = jax.vmap(jax.vmap(lambda h, q: mat.compute_energy_density(h, q, 0.0)))(H3, ivs)
+        W = jax.vmap(jax.vmap(lambda h, q: mat.compute_energy_density(h, q, dt)))(H3, ivs)
         return jnp.sum(W * wq[None, :] * det[:, None])
 
-    def update(U, ivs, X):
+    def update(U, ivs, X, dt=0.0):
         H3, _ = disp_grads(U, X)
-        return jax.vmap(jax.vmap(lambda h, q: mat.compute_state_new(h, q, 0.0)))(H3, ivs)
+        return jax.vmap(jax.vmap(lambda h, q: mat.compute_state_new(h, q, dt)))(H3, ivs)
 
     return energy, update, field
 
@@ -732,7 +763,11 @@ def _run_helpers(g, tier, seed, rec):
     from optimism.inverse import MechanicsInverse as MI, AdjointFunctionSpace as AFS
 
     order, matn = g["order"], g["mat"]
-    isJ2 = matn != "neohookean"
+    dts = g.get("dts")              # None: group without a time-step axis (helpers called without dt, oracle at the constant 0.0)
+    rate = dts is not None
+    dlabels = dts if rate else [None]
+    hasState = matn != "neohookean"
+    isJ2 = matn.startswith("j2")
     mesh, quad, shapeOnRef = _fe_setup(order, seed)
     mat = _material(matn)
     fs = FunctionSpace.construct_function_space(mesh, quad)
@@ -745,13 +780,15 @@ def _run_helpers(g, tier, seed, rec):
     Xs = {"mesh": coords0, "moved": coords0 + 0.03 * rngX.uniform(-1, 1, size=coords0.shape)}
 
     # the caller-composed energy, the way optimism/inverse/test composes it
-    def energy_all(U, ivs, X):
+    def energy_all(U, ivs, X, dt=None):
         afs = AFS.construct_function_space_for_adjoint(X, shapeOnRef, mesh, quad)
         mf = Mechanics.create_mechanics_functions(afs, mode2D="plane strain", materialModel=mat)
-        return mf.compute_strain_energy(U, ivs)
+        return mf.compute_strain_energy(U, ivs) if dt is None else mf.compute_strain_energy(U, ivs, dt)
 
     def energy_pd(Uu, p, ivs, X):
-        return energy_all(dm.create_field(Uu, p.bc_data), ivs, X)
+        # time-step axis: the residual helpers have no dt parameter, the caller's energy carries the time step (here in the
+        # app_data slot of the parameter set that is handed through the helper)
+        return energy_all(dm.create_field(Uu, p.bc_data), ivs, X, p.app_data if rate else None)
 
     def energy_pi(Uu, p, X):
         return energy_all(dm.create_field(Uu, p.bc_data), p.state_data, X)
@@ -759,7 +796,7 @@ def _run_helpers(g, tier, seed, rec):
     lib = {}
     try:
         with _quiet():
-            if isJ2:
+            if hasState:
                 rf = MI.create_path_dependent_residual_inverse_functions(energy_pd)
                 lib["R-coords"] = lambda Uu, p, ivs, X, v: rf.residual_jac_coords_vjp(Uu, p, ivs, X, v)
                 lib["R-ivs"] = lambda Uu, p, ivs, X, v: rf.residual_jac_ivs_prev_vjp(Uu, p, ivs, X, v)
@@ -772,6 +809,23 @@ def _run_helpers(g, tier, seed, rec):
         _viol(rec, "MechanicsInverse|create|mat=%s|%s" % (matn, sig), "helper;mat=%s;p=%d;create" % (matn, order), {"error": repr(e)[:400], "where": where})
         rec.case("helper;mat=%s;p=%d;create" % (matn, order), outcome="exception")
         return
+
+    def dtx(dl):
+        """trailing time-step argument of the oracle maps (none for the groups without a time-step axis)"""
+        return () if dl is None else (jnp.array(_DT_VALUES[dl]),)
+
+    def libcall(fn, args, dl):
+        """the helper with the time step handed over the way the label says"""
+        if dl is None or dl == "default":
+            return fn(*args)
+        if dl.endswith("kw"):
+            return fn(*args, dt=_DT_VALUES[dl])
+        return fn(*args, _DT_VALUES[dl])
+
+    def dtclass(h, dl):
+        if h.startswith("R-"):
+            return "via-energy"
+        return "default" if dl == "default" else ("keyword" if dl.endswith("kw") else "positional")
 
     o_energy, o_update, o_field = _independent_fe(mesh, quad, shapeOnRef, mat, onp.array(dm.isUnknown))
     o_res = jax.grad(o_energy, 0)
@@ -787,9 +841,13 @@ def _run_helpers(g, tier, seed, rec):
     ns = int(onp.array(mat.compute_initial_state()).reshape(-1).shape[0])
     virgin = onp.tile(onp.array(mat.compute_initial_state(), dtype=float).reshape(-1), (ne, nq, 1))
     states = {"virgin": virgin}
-    if isJ2:
-        states["hardened"] = onp.array(o_update_j(jnp.array(_helper_fields(coords0, "medium")), jnp.array(virgin), jnp.array(coords0)))
-        configs = [("small", "virgin"), ("large", "virgin"), ("large", "hardened"), ("small", "hardened")]
+    if hasState:
+        # evolved previous state: one load step to the medium field (time step 0.5 where there is a time-step axis). For the
+        # viscoelastic material it is partly relaxed towards the medium field, so it keeps relaxing under every test field
+        evolved = "hardened" if isJ2 else "relaxing"
+        states[evolved] = onp.array(o_update_j(jnp.array(_helper_fields(coords0, "medium")), jnp.array(virgin), jnp.array(coords0),
+                                               *((jnp.array(0.5),) if rate else ())))
+        configs = [("small", "virgin"), ("large", "virgin"), ("large", evolved), ("small", evolved)]
     else:
         configs = [("small", "virgin"), ("large", "virgin")]
 
@@ -799,33 +857,40 @@ def _run_helpers(g, tier, seed, rec):
         Uj, ivsj = jnp.array(U), jnp.array(ivs)
         Uu = onp.array(U).reshape(-1)[onp.flatnonzero(onp.array(dm.isUnknown).reshape(-1))]
         Ubc = onp.array(U).reshape(-1)[onp.flatnonzero(~onp.array(dm.isUnknown).reshape(-1))]
-        p = Objective.Params(bc_data=jnp.array(Ubc), state_data=ivsj)
         nu = Uu.shape[0]
-        # measured classification (J2): which quadrature points yield, and is the pattern away from the switch
-        if isJ2:
-            pats = []
-            for fac in (1.0, 1.0 - 1e-3, 1.0 + 1e-3):
-                newS = onp.array(o_update_j(jnp.array(fac * U), ivsj, jnp.array(coords0)))
-                pats.append(tuple((newS[:, :, 0] - ivs[:, :, 0] > 0).reshape(-1).tolist()))
-            if len(set(pats)) != 1:
-                rec.noverdict("helper;mat=%s;p=%d;U=%s;state=%s" % (matn, order, ul, sl), "configuration-straddles-yield-switch")
-                continue
-            nyield = sum(pats[0])
-            cls = "yielding" if nyield == len(pats[0]) else ("elastic" if nyield == 0 else "mixed")
-        else:
-            cls = "hyperelastic"
-        rec.branch("helper-config:%s" % cls)
+        # measured classification, per time step. J2: which quadrature points yield, and is the pattern away from the switch;
+        # viscoelastic: does the internal state move in this step
+        clss = {}
+        for dl in dlabels:
+            dcid = "" if dl is None else ";dt=%s" % dl
+            if isJ2:
+                pats = []
+                for fac in (1.0, 1.0 - 1e-3, 1.0 + 1e-3):
+                    newS = onp.array(o_update_j(jnp.array(fac * U), ivsj, jnp.array(coords0), *dtx(dl)))
+                    pats.append(tuple((newS[:, :, 0] - ivs[:, :, 0] > 0).reshape(-1).tolist()))
+                if len(set(pats)) != 1:
+                    rec.noverdict("helper;mat=%s;p=%d;U=%s;state=%s%s" % (matn, order, ul, sl, dcid), "configuration-straddles-yield-switch")
+                    continue
+                nyield = sum(pats[0])
+                cls = "yielding" if nyield == len(pats[0]) else ("elastic" if nyield == 0 else "mixed")
+            elif hasState:
+                newS = onp.array(o_update_j(Uj, ivsj, jnp.array(coords0), *dtx(dl)))
+                cls = "evolving" if float(onp.max(onp.abs(newS - ivs))) > 1e-6 else "frozen"
+            else:
+                cls = "hyperelastic"
+            clss[dl] = cls
+            rec.branch("helper-config:%s" % cls)
         for xl in ("mesh", "moved"):
             X = Xs[xl]
             Xj = jnp.array(X)
-            hs = (["R-coords"] + (["R-ivs"] if isJ2 else [])) + ["U-coords"] + (["U-ivs", "U-disp"] if xl == "mesh" else [])
+            hs = (["R-coords"] + (["R-ivs"] if hasState else [])) + ["U-coords"] + (["U-ivs", "U-disp"] if xl == "mesh" else [])
             hs = [h for h in hs if h[0] in g.get("parts", "RU")]
             for h in hs:
-                base_cid = "helper;mat=%s;p=%d;U=%s;state=%s;X=%s;h=%s" % (matn, order, ul, sl, xl, h)
                 ncot = nu if h.startswith("R-") else ne * nq * ns
                 if ncot == 0:
                     # material without internal variables: the update maps have an empty range; the products must be
                     # zero fields of the right shape (one case, no basis cotangent exists)
+                    base_cid = "helper;mat=%s;p=%d;U=%s;state=%s;X=%s;h=%s" % (matn, order, ul, sl, xl, h)
                     cid = base_cid + ";v=none"
                     if not rec.want(cid):
                         continue
@@ -849,73 +914,107 @@ def _run_helpers(g, tier, seed, rec):
                         _viol(rec, "MechanicsInverse.%s|mat=%s|empty-state|wrong-result" % (h, matn), cid, {"observed": got})
                     rec.case(cid, nontrivial=False, outcome="ok-empty-state" if ok else "violating")
                     continue
-                cids = ["%s;v=e%d" % (base_cid, i) for i in range(ncot)]
-                if not any(rec.want(c) for c in cids):
+                # time-step labels of this helper: the residual helpers take no dt (no default call to make; the energy of the
+                # rate-dependent materials is 0/0 at dt=0), and a keyword cannot be told from a positional dt in the caller's energy
+                dls = [dl for dl in dlabels if dl in clss and not (h.startswith("R-") and (dl == "default" or dl.endswith("kw")))]
+                allcids = {dl: ["helper;mat=%s;p=%d;U=%s;state=%s;X=%s%s;h=%s;v=e%d" % (matn, order, ul, sl, xl, "" if dl is None else ";dt=%s" % dl, h, i)
+                                for i in range(ncot)] for dl in dls}
+                if not any(rec.want(c) for dl in dls for c in allcids[dl]):
                     continue
-                # dense Jacobian of the independently composed map
-                if h.startswith("R-"):
-                    Jd = onp.array(dense[h](jnp.array(Uu), jnp.array(Ubc), ivsj, Xj))
-                else:
-                    Jd = onp.array(dense[h](Uj, ivsj, Xj if h == "U-coords" else jnp.array(coords0)))
-                Jd = Jd.reshape((ncot,) + Jd.shape[(1 if h.startswith("R-") else 3):])
-                jmax = float(onp.max(onp.abs(Jd)))
-                tau = TAU_HELPER * max(jmax, 1e-300)
-                dense_lib = None
-                if h == "U-ivs":
-                    try:
-                        with _quiet():
-                            dense_lib = onp.array(uf.ivs_update_jac_ivs_prev(Uj, ivsj))
-                    except Exception as e:  # noqa
-                        sig, where = _lib_exc(e)
-                        for cid in cids:
-                            if rec.want(cid):
-                                _viol(rec, "MechanicsInverse.%s|mat=%s|%s" % (h, matn, sig), cid, {"error": repr(e)[:400], "where": where})
-                                rec.case(cid, outcome="exception")
+                # dense Jacobians of the independently composed map, for every time step of the axis
+                Jval = {}
+                for dl in dls:
+                    key = None if dl is None else _DT_VALUES[dl]
+                    if key in Jval:
                         continue
-                for i, cid in enumerate(cids):
-                    if not rec.want(cid):
-                        continue
-                    exp = Jd[i]
-                    try:
-                        with _quiet():
-                            if h.startswith("R-"):
-                                v = onp.zeros(nu)
-                                v[i] = 1.0
-                                obs = onp.array(lib[h](jnp.array(Uu), p, ivsj, Xj, jnp.array(v)))
-                            else:
-                                v = onp.zeros(ne * nq * ns)
-                                v[i] = 1.0
-                                av = jnp.array(v.reshape(ne, nq, ns))
-                                if h == "U-disp":
-                                    obs = onp.array(uf.ivs_update_jac_disp_vjp(Uj, ivsj, av))
-                                elif h == "U-coords":
-                                    obs = onp.array(uf.ivs_update_jac_coords_vjp(Uj, ivsj, Xj, av))
-                                else:
-                                    # the way the adjoint loop of the library's own tests contracts it
-                                    obs = onp.einsum("ijk,ijkn->ijn", v.reshape(ne, nq, ns), dense_lib)
-                    except Exception as e:  # noqa
-                        sig, where = _lib_exc(e)
-                        _viol(rec, "MechanicsInverse.%s|mat=%s|%s" % (h, matn, sig), cid, {"error": repr(e)[:400], "where": where})
-                        rec.case(cid, outcome="exception")
-                        continue
-                    if obs.shape != exp.shape:
-                        _viol(rec, "MechanicsInverse.%s|mat=%s|shape" % (h, matn), cid, {"observed_shape": list(obs.shape), "expected_shape": list(exp.shape)})
-                        rec.case(cid, outcome="violating")
-                        continue
-                    fin = bool(onp.all(onp.isfinite(obs)))
-                    err = float(onp.max(onp.abs(obs - exp))) if fin else float("nan")
-                    if jmax > 0:
-                        rec.track_max("helper_err_over_tau[%s]" % h, err / tau)
-                    nontriv = bool(onp.max(onp.abs(exp)) > 1e-6 * jmax > 0) and cls != "elastic-trivial"
-                    if not err <= tau:
-                        _viol(rec, "MechanicsInverse.%s|mat=%s|%s" % (h, matn, "vjp-mismatch" if fin else "nonfinite"), cid,
-                              {"observed": obs, "expected": exp, "tau": tau, "config": cls, "cotangent_index": i, "U": U, "ivs": ivs, "X": X})
-                        rec.case(cid, nontrivial=nontriv, outcome="violating")
+                    if h.startswith("R-"):
+                        Jd = onp.array(dense[h](jnp.array(Uu), jnp.array(Ubc), ivsj, Xj, *dtx(dl)))
                     else:
-                        rec.case(cid, nontrivial=nontriv, outcome="ok-%s" % cls if nontriv else "ok-zero-row",
-                                 sample=({"case": cid, "max_abs_expected": float(onp.max(onp.abs(exp))), "err": err, "tau": tau}
-                                         if stable_hash(cid) % 500 == 0 else None))
-                rec.branch("helper:%s:%s" % (h, cls))
+                        Jd = onp.array(dense[h](Uj, ivsj, Xj if h == "U-coords" else jnp.array(coords0), *dtx(dl)))
+                    Jval[key] = Jd.reshape((ncot,) + Jd.shape[(1 if h.startswith("R-") else 3):])
+                for dl in dls:
+                    cids = allcids[dl]
+                    if not any(rec.want(c) for c in cids):
+                        continue
+                    cls = clss[dl]
+                    Jd = Jval[None if dl is None else _DT_VALUES[dl]]
+                    others = [] if dl is None else [J for k, J in Jval.items() if k != _DT_VALUES[dl]]
+                    jmax = float(onp.max(onp.abs(Jd)))
+                    tau = TAU_HELPER * max(jmax, 1e-300)
+                    p = Objective.Params(bc_data=jnp.array(Ubc), state_data=ivsj, app_data=(jnp.array(_DT_VALUES[dl]) if rate else None))
+                    kdt = "|dt=%s" % dtclass(h, dl) if rate else ""
+                    dense_lib = None
+                    if h == "U-ivs":
+                        try:
+                            with _quiet():
+                                dense_lib = onp.array(libcall(uf.ivs_update_jac_ivs_prev, (Uj, ivsj), dl))
+                        except Exception as e:  # noqa
+                            sig, where = _lib_exc(e)
+                            for cid in cids:
+                                if rec.want(cid):
+                                    _viol(rec, "MechanicsInverse.%s|mat=%s%s|%s" % (h, matn, kdt, sig), cid, {"error": repr(e)[:400], "where": where})
+                                    rec.case(cid, outcome="exception")
+                            continue
+                    for i, cid in enumerate(cids):
+                        if not rec.want(cid):
+                            continue
+                        exp = Jd[i]
+                        try:
+                            with _quiet():
+                                if h.startswith("R-"):
+                                    v = onp.zeros(nu)
+                                    v[i] = 1.0
+                                    obs = onp.array(lib[h](jnp.array(Uu), p, ivsj, Xj, jnp.array(v)))
+                                else:
+                                    v = onp.zeros(ne * nq * ns)
+                                    v[i] = 1.0
+                                    av = jnp.array(v.reshape(ne, nq, ns))
+                                    if h == "U-disp":
+                                        obs = onp.array(libcall(uf.ivs_update_jac_disp_vjp, (Uj, ivsj, av), dl))
+                                    elif h == "U-coords":
+                                        obs = onp.array(libcall(uf.ivs_update_jac_coords_vjp, (Uj, ivsj, Xj, av), dl))
+                                    else:
+                                        # the way the adjoint loop of the library's own tests contracts it
+                                        obs = onp.einsum("ijk,ijkn->ijn", v.reshape(ne, nq, ns), dense_lib)
+                        except Exception as e:  # noqa
+                            sig, where = _lib_exc(e)
+                            _viol(rec, "MechanicsInverse.%s|mat=%s%s|%s" % (h, matn, kdt, sig), cid, {"error": repr(e)[:400], "where": where})
+                            rec.case(cid, outcome="exception")
+                            continue
+                        if obs.shape != exp.shape:
+                            _viol(rec, "MechanicsInverse.%s|mat=%s%s|shape" % (h, matn, kdt), cid, {"observed_shape": list(obs.shape), "expected_shape": list(exp.shape)})
+                            rec.case(cid, outcome="violating")
+                            continue
+                        fin = bool(onp.all(onp.isfinite(obs)))
+                        err = float(onp.max(onp.abs(obs - exp))) if fin else float("nan")
+                        if jmax > 0:
+                            rec.track_max(("helper_dt_err_over_tau[%s]" if rate else "helper_err_over_tau[%s]") % h, err / tau)
+                        nontriv = bool(onp.max(onp.abs(exp)) > 1e-6 * jmax > 0) and cls != "elastic-trivial"
+                        # measured: would another time step of the axis (for the update helpers of the viscoelastic material
+                        # including the helper's default 0.0) give a visibly different row
+                        dtdep = bool(others) and all(float(onp.max(onp.abs(exp - Jo[i]))) > 100.0 * tau for Jo in others)
+                        if rate and dl != "default":
+                            rowzero = not nontriv
+                            nontriv = nontriv and dtdep
+                        if not err <= tau:
+                            detail = {"observed": obs, "expected": exp, "tau": tau, "config": cls, "cotangent_index": i, "U": U, "ivs": ivs, "X": X}
+                            if rate:
+                                detail.update({"dt": _DT_VALUES[dl], "dt_passed": dtclass(h, dl), "row_depends_on_dt": dtdep})
+                            _viol(rec, "MechanicsInverse.%s|mat=%s%s|%s" % (h, matn, kdt, "vjp-mismatch" if fin else "nonfinite"), cid, detail)
+                            rec.case(cid, nontrivial=nontriv, outcome="violating")
+                        else:
+                            if nontriv:
+                                oc = "ok-%s" % cls
+                            elif rate and dl != "default" and not rowzero:
+                                oc = "ok-dt-independent-row"
+                            else:
+                                oc = "ok-zero-row"
+                            rec.case(cid, nontrivial=nontriv, outcome=oc,
+                                     sample=({"case": cid, "max_abs_expected": float(onp.max(onp.abs(exp))), "err": err, "tau": tau}
+                                             if stable_hash(cid) % 500 == 0 else None))
+                    rec.branch("helper:%s:%s" % (h, cls))
+                    if rate:
+                        rec.branch("helper-dt:%s:%s" % (h, dtclass(h, dl)))
 
 
 def _run_fs(g, tier, seed, rec):
